@@ -136,3 +136,30 @@ Example ex_remove_child_handle :
   cpn G6 1 = [2] /\ peer_cps G6 2 = [] /\
   fst (run (exec true (ORemoveChild 1 7) [[2]]) G6) = inl [[]].
 Proof. vm_compute. repeat split; reflexivity. Qed.
+
+(* G7: a NIC's own service (1) with its physical port 2, connected over link 3 to service port 4 of service 5:
+   a chain of four connects edges exists, but its end 2 is not a ServicePort: unpeer raises (fix 0d94156) *)
+Definition G7 : graph := mkGraph
+  [ mkNode 1 CNS 12 1 false 1; mkNode 2 CCP 4 2 false 1; mkNode 3 CLink 14 3 false 1; mkNode 4 CCP 1 4 false 1;
+    mkNode 5 CNS 13 5 false 1 ]
+  [ mkEdge 1 2 RConnects; mkEdge 2 3 RConnects; mkEdge 3 4 RConnects; mkEdge 4 5 RConnects ].
+
+Example ex_unpeer_node_port :
+  unpeer_ends G7 1 5 = Some [(2, 4)] /\ both_sp G7 (2, 4) = false /\
+  fst (run (exec true (OUnpeer 1 5) [[2]; [4]]) G7) = inr ETopology /\
+  trace_of (run (exec true (OUnpeer 1 5) [[2]; [4]]) G7) = [].
+Proof. vm_compute. repeat split; reflexivity. Qed.
+
+(* removing the peered service 1 of G2 through the API: the other service's port 4 goes too (fix 18b6247) *)
+Example ex_remove_peered_service :
+  by_name G2 CNS 1 = [1] /\ disc_list G2 (cpn G2 1) = [3] /\ type_of G2 4 = T_ServicePort /\
+  ok_of (run (exec true (ORemoveNsTopo 1) []) G2) = true /\
+  trace_of (run (exec true (ORemoveNsTopo 1) []) G2) = [1; 3; 4; 5].
+Proof. vm_compute. repeat split; reflexivity. Qed.
+
+Lemma link2_G2_5 : link2 G2 5 3 4.
+Proof.
+  split; [vm_compute; reflexivity|]. split; [discriminate|]. intros y.
+  assert (E : cpn G2 5 = [3; 4]) by (vm_compute; reflexivity). rewrite E. simpl.
+  split; [intros [H|[H|[]]]; auto | intros [H|H]; auto].
+Qed.
